@@ -63,6 +63,7 @@ var interpPkgs = map[string]bool{
 	"context": true, "net": true, "net/url": true, "bufio": true, "internal/stringslite": true,
 	"internal/itoa": true, "internal/byteorder": true, "cmp": true, "maps": true, "math": true,
 	"internal/bytealg": true, "internal/abi": true, "sync/atomic": true, "sync": true, "unsafe": true,
+	"crypto/subtle": true, "crypto/internal/alias": true, "path": true,
 	"github.com/go-jose/go-jose/v4/jwt": true,
 	"github.com/m7913d/go-ntlm/ntlm":    true,
 	"net/textproto":                     true, "net/http/internal": true, "net/netip": true, "github.com/google/uuid": true, "github.com/go-jose/go-jose/v4": true, "math/big": true, "internal/godebug": false,
@@ -71,7 +72,7 @@ var interpPkgs = map[string]bool{
 var initPkgs = map[string]bool{
 	"errors": true, "io": true, "strconv": true, "unicode/utf8": true, "unicode/utf16": true, "bytes": true,
 	"strings": true, "encoding/binary": true, "encoding/hex": true, "encoding/base64": true, "sort": true,
-	"math/bits": true, "time": true, "context": true, "bufio": true, "net/http/internal": true,
+	"math/bits": true, "time": true, "context": true, "bufio": true, "net/http/internal": true, "net/netip": true, "net": true,
 	"github.com/go-jose/go-jose/v4/jwt": true, "github.com/m7913d/go-ntlm/ntlm": true,
 }
 
@@ -187,6 +188,12 @@ func (e *Engine) invoke(fr *Frame, ret ssa.Value, fn *ssa.Function, binds []Valu
 		}
 	}
 	// 3. engine intrinsics
+	if strings.Contains(name, "[") {
+		if res, ok := e.genericIntrinsic(fn, args); ok {
+			e.finish(fr, ret, res, noAdvance)
+			return
+		}
+	}
 	if h, ok := intrinsicsExtra[name]; ok {
 		res, done := h(e, fr, args)
 		if done {
@@ -304,6 +311,11 @@ var modelFuncs = map[string]string{
 	"encoding/binary.Read":      "vpmBinaryRead",
 	"strings.IndexAny":          "vpmIndexAny",
 	"crypto/sha256.Sum256":      "vpmSha256Sum256",
+	"errors.As":                 "vpmErrorsAs",
+	"sort.Slice":                "vpmSortSlice",
+	"sort.SliceStable":          "vpmSortSlice",
+	"crypto/hmac.New":           "vpmHmacNew",
+	"crypto/hmac.Equal":         "vpmHmacEqual",
 	"crypto/sha1.Sum":           "vpmSha1Sum",
 	"crypto/md5.Sum":            "vpmMd5Sum",
 	"strings.ContainsAny":       "vpmContainsAny",
